@@ -427,7 +427,13 @@ func (an *wtAn) writesThrough(f *ssa.Function, idx int) []writeFact {
 					}
 				case "append":
 					if val[c.Args[0]] {
-						out = append(out, writeFact{in, "append onto receiver-derived slice", false})
+						// appending to a receiver-derived slice that was cut shorter than the original
+						// (x[:i], x[a:b]) writes inside the original's length: a hard write
+						if sl, ok := c.Args[0].(*ssa.Slice); ok && sl.High != nil {
+							out = append(out, writeFact{in, "append onto a shortened re-slice of receiver storage overwrites the receiver's elements", true})
+						} else {
+							out = append(out, writeFact{in, "append onto receiver-derived slice", false})
+						}
 					}
 				}
 				return
